@@ -484,6 +484,102 @@ def rule_r6(prog, res) -> None:
     shared_rule(res, c17.rule_r8, "C17", "C17.R8", "C10.R6")
 
 
+def rule_r7(prog, res) -> None:
+    """the derived quantities of a binning are what their names say, for every number of bins: `left` / `right` are all
+    edges but the last / the first, `dz` the differences of adjacent edges, `mids` the arithmetic mean of adjacent edges
+    (the redshift at which the counting angle of a bin is evaluated, at which n(z) is plotted and normalised); and the
+    edge validator rejects arrays that are not one-dimensional or have fewer than two edges.  Folded numerically on a
+    witness binning (edges 1, 2, 4, 8) with slices, +, -, *, /, numpy.diff."""
+    b = prog.find_class("Binning")
+    W = (1.0, 2.0, 4.0, 8.0)
+    want = {"left": W[:-1], "right": W[1:], "dz": tuple(b_ - a_ for a_, b_ in zip(W, W[1:])), "mids": tuple((a_ + b_) / 2 for a_, b_ in zip(W, W[1:]))}
+
+    def ev(e, depth=0):
+        if depth > 6:
+            raise Unknown("depth")
+        if isinstance(e, ast.Constant):
+            return e.value
+        if isinstance(e, ast.Attribute) and isinstance(e.value, ast.Name) and e.value.id == "self":
+            if e.attr == "edges":
+                return W
+            m_ = b.methods.get(e.attr)
+            if m_ is not None and m_.is_property:
+                r_ = [x.value for x in walk_no_nested(m_.node) if isinstance(x, ast.Return) and x.value is not None]
+                if len(r_) == 1:
+                    return ev(r_[0], depth + 1)
+            raise Unknown(unparse(e))
+        if isinstance(e, ast.Subscript) and isinstance(e.slice, ast.Slice) and e.slice.step is None:
+            v = ev(e.value, depth + 1)
+            lo = ev(e.slice.lower, depth + 1) if e.slice.lower is not None else None
+            hi = ev(e.slice.upper, depth + 1) if e.slice.upper is not None else None
+            return tuple(v[lo:hi])
+        if isinstance(e, ast.UnaryOp) and isinstance(e.op, ast.USub):
+            return -ev(e.operand, depth + 1)
+        if isinstance(e, ast.BinOp) and isinstance(e.op, (ast.Add, ast.Sub, ast.Mult, ast.Div)):
+            l, r = ev(e.left, depth + 1), ev(e.right, depth + 1)
+            f = {ast.Add: lambda a_, b_: a_ + b_, ast.Sub: lambda a_, b_: a_ - b_, ast.Mult: lambda a_, b_: a_ * b_, ast.Div: lambda a_, b_: a_ / b_}[type(e.op)]
+            if isinstance(l, tuple) and isinstance(r, tuple):
+                if len(l) != len(r):
+                    raise Unknown("shape")
+                return tuple(f(a_, b_) for a_, b_ in zip(l, r))
+            if isinstance(l, tuple):
+                return tuple(f(a_, r) for a_ in l)
+            if isinstance(r, tuple):
+                return tuple(f(l, b_) for b_ in r)
+            return f(l, r)
+        if isinstance(e, ast.Call) and (dotted(e.func) or "").split(".")[-1] == "diff" and len(e.args) == 1 and not e.keywords:
+            v = ev(e.args[0], depth + 1)
+            return tuple(b_ - a_ for a_, b_ in zip(v, v[1:]))
+        if isinstance(e, ast.Call) and (dotted(e.func) or "").split(".")[-1] in ("asarray", "array", "atleast_1d") and e.args:
+            return ev(e.args[0], depth + 1)
+        raise Unknown(unparse(e)[:40])
+
+    n = 0
+    for name, expect in want.items():
+        m = b.methods.get(name)
+        if m is None or not m.is_property:
+            raise AnalysisError(f"C10.R7: Binning.{name} is no property any more")
+        res.touch(m)
+        rets = [x.value for x in walk_no_nested(m.node) if isinstance(x, ast.Return) and x.value is not None]
+        if len(rets) != 1:
+            raise AnalysisError(f"C10.R7: Binning.{name} has {len(rets)} return statements")
+        try:
+            got = ev(rets[0])
+        except Unknown as err:
+            raise AnalysisError(f"C10.R7: cannot fold Binning.{name} ({err})") from None
+        n += 1
+        if isinstance(got, tuple) and len(got) == len(expect) and all(abs(a_ - b_) < 1e-12 for a_, b_ in zip(got, expect)):
+            res.ok("C10.R7", res.site(m), f"edges {W} -> {got}")
+        else:
+            res.violation("C10.R7", m, rets[0], f"Binning.{name} gives {got} for the edges {W}, expected {expect}: every consumer of the bin {name} (counting angle per bin, n(z) normalisation, files) works with other redshifts than the bins have", key_extra=f"binning-{name}")
+    # the validator of edges
+    pb = prog.func("parse_binning")
+    res.touch(pb)
+    prm = pb.param_names()[0]
+    guards = [x for x in walk_no_nested(pb.node) if isinstance(x, ast.If) and any(isinstance(s_, ast.Raise) for s_ in x.body)]
+    names = {prm} | {x.targets[0].id for x in walk_no_nested(pb.node) if isinstance(x, ast.Assign) and len(x.targets) == 1 and isinstance(x.targets[0], ast.Name) and any(isinstance(y, ast.Name) and y.id == prm for y in ast.walk(x.value))}
+    for what, ndim, ln, must in (("a valid array of three edges", 1, 3, False), ("a two-dimensional array", 2, 3, True), ("a single edge", 1, 1, True), ("a scalar", 0, 0, True)):
+        env = {}
+        for nm in names:
+            env[f"{nm}.ndim"] = ndim
+            env[f"len({nm})"] = ln
+            env[f"{nm}.size"] = ln
+            env[f"{nm}.shape"] = (ln,) * ndim
+        fired = False
+        for g in guards:
+            try:
+                fired = fired or bool(ceval(g.test, env))
+            except (Unknown, TypeError):
+                continue
+        n += 1
+        if fired == must:
+            res.ok("C10.R7", res.site(pb, what), "rejected" if must else "accepted by the shape checks")
+        else:
+            res.violation("C10.R7", pb, pb.node, f"parse_binning {'accepts' if must else 'rejects'} {what} (ndim={ndim}, len={ln}): " + ("a binning without a single complete bin / with matrix-valued edges gets through, the per-bin arrays downstream are empty or mis-shaped" if must else "valid edges are refused"), key_extra=f"parse-binning-{what[:20]}")
+    if n < 8:
+        raise AnalysisError(f"C10.R7: only {n} instances folded")
+
+
 RULES = [
     ("C10.R1", rule_r1, QUICK),
     ("C10.R2", rule_r2, QUICK),
@@ -491,4 +587,5 @@ RULES = [
     ("C10.R4", rule_r4, QUICK),
     ("C10.R5", rule_r5, QUICK),
     ("C10.R6", rule_r6, QUICK),
+    ("C10.R7", rule_r7, QUICK),
 ]
